@@ -449,4 +449,58 @@ theorem lookup_append_congr {α β} [BEq α] (l a b : List (α × β)) (x : α)
     simp only [List.cons_append, List.lookup]
     cases x == k <;> simp [ih]
 
+/-! ## an import is visible only below the scope it is made in -/
+
+/-- an import added to scope `b` changes what scope `a ≠ b` offers for no name -/
+theorem hitAt_insertImport {g g' : Graph} {b : Nat} {tgt : RName}
+    (h : g.insertImport b tgt = .ok g') (a : Nat) (x : Name) (hne : a ≠ b ∨ x ≠ tgt.ident) :
+    hitAt g' a x = hitAt g a x := by
+  unfold Graph.insertImport at h
+  cases hs : g.scopes[b]? with
+  | none => rw [hs] at h; cases h
+  | some sc =>
+    rw [hs] at h
+    simp only at h
+    cases hl : sc.imports.lookup tgt.ident with
+    | some _ => rw [hl] at h; cases h
+    | none =>
+      rw [hl] at h
+      simp only [Res.ok.injEq] at h
+      subst h
+      have hslt := getElem?_lt hs
+      unfold hitAt
+      simp only [Graph.decl]
+      cases hd : g.decls.find? (fun d => d.name = ⟨a, x⟩) with
+      | some d => rfl
+      | none =>
+        simp only
+        rw [List.getElem?_set]
+        by_cases hba : b = a
+        · subst hba
+          simp only [↓reduceIte, hslt, hs]
+          have hx : x ≠ tgt.ident := by
+            rcases hne with h1 | h2
+            · exact absurd rfl h1
+            · exact h2
+          rw [lookup_append_ne _ _ _ _ hx]
+        · simp [hba]
+
+theorem firstHit_insertImport {g g' : Graph} {b : Nat} {tgt : RName}
+    (h : g.insertImport b tgt = .ok g') (x : Name) :
+    ∀ chain : List Nat, (b ∉ chain ∨ x ≠ tgt.ident) → firstHit g' x chain = firstHit g x chain := by
+  intro chain
+  induction chain with
+  | nil => intro _; rfl
+  | cons a l ih =>
+    intro hoff
+    have h1 : a ≠ b ∨ x ≠ tgt.ident := by
+      rcases hoff with h | h
+      · exact Or.inl (fun e => h (by rw [e]; exact List.mem_cons_self))
+      · exact Or.inr h
+    have h2 : b ∉ l ∨ x ≠ tgt.ident := by
+      rcases hoff with h | h
+      · exact Or.inl (fun hm => h (List.mem_cons_of_mem _ hm))
+      · exact Or.inr h
+    simp only [firstHit, hitAt_insertImport h a x h1, ih h2]
+
 end RotoV.Scope
